@@ -272,7 +272,7 @@ def repo_test_traces(tier, seed=0):
     fd, out = tempfile.mkstemp(prefix='verif-repotrace-', suffix='.ndjson')
     os.close(fd)
     env = dict(os.environ, VERIF_REPO_TRACE_OUT=out, VERIF_REPO_TRACE_MAX=str(3 * n), VERIF_REPO_TRACE_KEEP=str(n), VERIF_REPO_TRACE_MAX_INSTANTS='70' if tier == 'quick' else '150',
-               PYTHONPATH=VERIF + os.pathsep + os.environ.get('PYTHONPATH', ''), PYTHONHASHSEED='0',
+               PYTHONPATH=VERIF + os.pathsep + os.environ.get('PYTHONPATH', ''), PYTHONHASHSEED='0', PYTHONDONTWRITEBYTECODE='1',
                HYPOTHESIS_STORAGE_DIRECTORY=tempfile.mkdtemp(prefix='verif-hyp-'))       # nothing is written into the repository
     try:
         # the hypothesis seed is fixed by the check's seed: the recorded executions are a deterministic function of (sources, seed)
